@@ -102,6 +102,24 @@ pub fn buildv_line(mode: usize, ecl: usize, len: usize, forced: Option<usize>) -
     format!("buildv {} {} {} {} => {}", mode, ecl, len, opt(forced), outcome_short(&o))
 }
 
+/// `buildvh mode ecl len forced ecl0 => …` : `buildv` on a builder that has already built once at level `ecl0`
+pub fn buildvh_line(mode: usize, ecl: usize, len: usize, forced: Option<usize>, ecl0: usize) -> String {
+    let input = vec![b'1'; len];
+    let cfg = Opts { ecl: Some(ecl), mode: Some(mode), version: forced, mask: Some(0) };
+    let o = build_after(&input, Opts { ecl: Some(ecl0), ..cfg }, cfg);
+    format!("buildvh {} {} {} {} {} => {}", mode, ecl, len, opt(forced), ecl0, outcome_short(&o))
+}
+
+/// `buildh <hex> e m v k e0 m0 v0 k0 => …` : `build` on a builder that has already built once under (e0, m0, v0, k0)
+pub fn buildh_line(input: &[u8], o: Opts, prev: Opts) -> String {
+    let r = build_after(input, prev, o);
+    format!(
+        "buildh {} {} {} {} {} {} {} {} {} => {}",
+        hex(input), opt(o.ecl), opt(o.mode), opt(o.version), opt(o.mask),
+        opt(prev.ecl), opt(prev.mode), opt(prev.version), opt(prev.mask), outcome_full(&r)
+    )
+}
+
 fn gen_c05(out: &mut Out, rng: &mut Rng, thorough: bool) {
     for mode in 0..3 {
         for ecl in 0..4 {
@@ -134,6 +152,17 @@ fn gen_c05(out: &mut Out, rng: &mut Rng, thorough: bool) {
                     }
                     for f in forced {
                         out.job(move || buildv_line(mode, ecl, len, f));
+                    }
+                    // the same configuration reached on a builder that has already built at another level
+                    if len + 1 >= b {
+                        let e0 = (ecl + 1 + rng.below(3)) % 4;
+                        out.job(move || buildvh_line(mode, ecl, len, None, e0));
+                        if thorough {
+                            for e0 in (0..4).filter(|x| *x != ecl) {
+                                out.job(move || buildvh_line(mode, ecl, len, auto, e0));
+                                out.job(move || buildvh_line(mode, ecl, len, None, e0));
+                            }
+                        }
                     }
                 }
             }
@@ -626,6 +655,17 @@ fn gen_c10(out: &mut Out, rng: &mut Rng, thorough: bool) {
                         _ => None,
                     };
                     let o = Opts { ecl: Some(e), mode, version: forced, mask: if rng.chance(1, 2) { Some(rng.below(8)) } else { None } };
+                    // half of them on a builder that has already built under a configuration differing in one option
+                    if rng.chance(1, 2) {
+                        let mut prev = o;
+                        match rng.below(3) {
+                            0 => prev.ecl = Some((e + 1 + rng.below(3)) % 4),
+                            1 => prev.version = Some(rng.below(40)),
+                            _ => prev.mask = Some(rng.below(8)),
+                        }
+                        let i2 = inp.clone();
+                        out.job(move || buildh_line(&i2, o, prev));
+                    }
                     out.job(move || build_line(&inp, o));
                 }
             }
